@@ -54,10 +54,11 @@ Fixpoint has_parens (e : exp) : bool :=
   end.
 
 Section Classes.
+  Variable fx : fixes.
   Variable fclose : list N -> list N -> bool.
 
   Definition dev_binop (op : tkind) (a b : exp) (l : loc) : list cls :=
-    let m := places_of (binop_checks op a b l) in
+    let m := places_of (binop_checks fx fclose op a b l) in
     let s := spec_binop fclose op a b l in
     let nilcase (ty : N) :=
         let mt := of_ty ty m in
@@ -87,7 +88,7 @@ Section Classes.
     | [] => []
     | k :: r =>
       let mk := match k with
-                | Some ke => match key_str ke parent with
+                | Some ke => match key_str fx ke parent with
                              | Some (key, _, l) => match key with [] => None | _ => Some (key, l) end
                              | None => None
                              end
@@ -121,12 +122,14 @@ Section Classes.
     let s := spec_params (combine pars plocs) [] in
     if subset_places m s && subset_places s m then [] else [CUnexplained].
 
-  (* condition by condition; [nreal] = number of conditions written in the source *)
-  Fixpoint dev_if (nreal : nat) (seen : list exp) (cs : list exp) (j : nat) : list cls :=
+  (* condition by condition; [nreal] = number of conditions written in the source, [nmod] = the number of entries of
+     IfStat.Exps the code compares *)
+  Fixpoint dev_if (nmod nreal : nat) (seen : list exp) (cs : list exp) (j : nat) : list cls :=
     match cs with
     | [] => []
     | c :: r =>
-      let mrep := if existsb (fun c' => comp_exp fclose c' c) seen then Some (get_exp_loc c) else None in
+      let mrep := if Nat.ltb j nmod && existsb (fun c' => cmp fx fclose c' c) seen
+                  then Some (get_exp_loc fx c) else None in
       let real := Nat.ltb j nreal in
       let srep := if real && existsb (fun c' => same_b fclose c' c) seen then Some (exp_loc c) else None in
       (match mrep, srep with
@@ -134,11 +137,11 @@ Section Classes.
        | Some lm, Some ls => if loc_eqb lm ls then [] else if is_nil c then [C19NilPlace] else [CUnexplained]
        | Some _, None => if negb real then [C19Else] else [CUnexplained]
        | None, Some _ => if has_parens c || existsb has_parens seen then [C19Parens] else [CUnexplained]
-       end) ++ dev_if nreal (c :: seen) r (S j)
+       end) ++ dev_if nmod nreal (c :: seen) r (S j)
     end.
 
   Definition dev_assign (vars es : list exp) (l : loc) : list cls :=
-    let m := places_of (assign_checks fclose vars es l) in
+    let m := places_of (assign_checks fx fclose vars es l) in
     let s := spec_assign fclose vars es l in
     (if same_places (of_ty 7 m) (of_ty 7 s) then [] else [CUnexplained])
     ++ (let mt := of_ty 20 m in
@@ -158,7 +161,7 @@ Section Classes.
       | NE (EBinop op a b l) => dev_binop op a b l
       | NE (ETable ks _ l) => dev_table ks l [] []
       | NE (EFunc _ _ pars plocs _ _ _ _) => dev_params pars plocs
-      | NS (SIf es _ _) => dev_if (length (real_conds elses es)) [] es 0
+      | NS (SIf es _ _) => dev_if (length (conds_of fx elses es)) (length (real_conds elses es)) [] es 0
       | NS (SAssign vars es l) => dev_assign vars es l
       | NS (SLocal names _ _ es l) => dev_local names es l
       | _ => []
@@ -166,11 +169,12 @@ Section Classes.
     else match spec_node fclose elses n with [] => [] | _ => [CUnvisited] end.
 
   (* the sub-nodes with "is visited by the first pass": only the surplus expressions of a local declaration
-     beyond index nNames are skipped (assignment targets are Name / TableAccess in an error-free parse) *)
+     beyond index nNames are skipped, before C20-local-surplus (assignment targets are Name / TableAccess in an
+     error-free parse) *)
   Definition children_flag (n : node) : list (node * bool) :=
     match n with
     | NS (SLocal names _ _ es _) =>
-      combine (map NE es) (map (fun i => Nat.leb i (length names)) (seq 0 (length es)))
+      combine (map NE es) (map (fun i => fx_surplus fx || Nat.leb i (length names)) (seq 0 (length es)))
     | _ => map (fun c => (c, true)) (children_all n)
     end.
 
@@ -197,16 +201,48 @@ Section Classes.
     let ds := devs (nsize (NB b)) elses true (NB b)
               ++ (if has_dup_place (demanded fclose elses b) then [CLocCollision] else []) in
     if existsb (cls_eqb CUnexplained) ds then [CUnexplained] else nodup_cls ds.
+
+  (* IfStat.HasElse is recovered from the Locs of the `else` tokens (Model/Patterns.v, has_else): exact when the number
+     of if statements that look like having an else branch is the number of `else` tokens (in an error-free file every
+     `else` token belongs to exactly one if statement, and that one looks so) *)
+  Definition looks_else (elses : list loc) (n : node) : bool :=
+    match n with NS (SIf es _ _) => has_else elses es | _ => false end.
+  Definition else_exact (elses : list loc) (b : block) : bool :=
+    Nat.eqb (length (filter (looks_else elses) (subnodes (nsize (NB b)) (NB b)))) (length elses).
 End Classes.
+
+(* ------------------------------------------------------------------ the guard of the whole-file theorem
+   (Proofs/PatternsFile.v, file_exact): no comparison whose operands are the same but have no internal name (the
+   remaining deviation of check 14), no local declaration with two or more surplus values (unless C20-local-surplus is
+   in), and the sanity of an error-free parse: operands of binary operators / conditions are no BadExpr and carry a
+   Loc, assignment targets are names or table accesses *)
+Definition is_bad (e : exp) : bool := match e with EBad _ => true | _ => false end.
+Definition real_loc_b (e : exp) : bool := negb (is_bad e) && negb (loc_eqb (exp_loc e) zero_loc).
+Definition var_like_b (e : exp) : bool := match e with EName _ _ | EIndex _ _ _ => true | _ => false end.
+
+Definition node_guard_b (fx : fixes) (fclose : list N -> list N -> bool) (n : node) : bool :=
+  match n with
+  | NE (EBinop op a b _) =>
+    real_loc_b a && real_loc_b b && (negb (cmp_op op && same_b fclose a b) || negb (has_hash (exp_name a)))
+  | NS (SIf es _ _) => forallb (fun c => negb (is_bad c)) es
+  | NS (SAssign vars _ _) => forallb var_like_b vars
+  | NS (SLocal names _ _ es _) => fx_surplus fx || Nat.leb (length es) (S (length names))
+  | _ => true
+  end.
+Definition file_guard_b (fx : fixes) (fclose : list N -> list N -> bool) (b : block) : bool :=
+  forallb (node_guard_b fx fclose) (subnodes (nsize (NB b)) (NB b)).
 
 (* ------------------------------------------------------------------ one file, from its bytes: model / spec / classes *)
 Record outcome := mkOutcome {
   o_model : list report;          (* what the model of the Go code reports (= run_bytes) *)
   o_valid : bool;                 (* the file parses without any lexical or syntax error *)
   o_spec : list place;            (* what the property demands (meaningful when o_valid) *)
-  o_classes : list cls }.
+  o_classes : list cls;
+  o_else_exact : bool;            (* the recovery of IfStat.HasElse is unambiguous (else_exact) *)
+  o_guard : bool }.               (* the file passes the guard of the whole-file theorem (file_guard_b) *)
 
 Section Check.
+  Variable fx : fixes.
   Variable fclose : list N -> list N -> bool.
   Variable gbk_runes : list N -> Z.
   Variable classify : list N -> numcls.
@@ -218,24 +254,42 @@ Section Check.
     match r with
     | PR b le pe =>
       let elses := else_locs zero_tok ts in
-      Ok (mkOutcome (run_block fclose b)
+      Ok (mkOutcome (run_block fx fclose elses b)
                     (match le, pe with [], [] => true | _, _ => false end)
                     (demanded fclose elses b)
-                    (classes_of fclose elses b))
-    | PRTooMany => Ok (mkOutcome [] false [] [])
+                    (classes_of fx fclose elses b)
+                    (else_exact elses b)
+                    (file_guard_b fx fclose b))
+    | PRTooMany => Ok (mkOutcome [] false [] [] true true)
     end.
 
   Lemma check_bytes_model bs :
-    match check_bytes bs, run_bytes fclose gbk_runes classify bs with
+    match check_bytes bs, run_bytes fx fclose gbk_runes classify bs with
     | Ok o, Ok m => o_model o = m
     | Fault k, Fault k' => k = k'
     | OutOfFuel, OutOfFuel => True
     | _, _ => False
     end.
   Proof.
-    unfold check_bytes, run_bytes, parse_bytes.
+    unfold check_bytes, run_bytes.
     destruct (lex_all gbk_runes bs) as [ts| |]; cbn [rbind]; auto.
     destruct (parse_tokens classify (fuel_of_tokens (parser_view ts)) (parser_view ts)) as [[b le pe|]| |];
       cbn [rbind o_model]; auto.
+  Qed.
+
+  (* ... and run_bytes is the shared front end (parse_bytes) followed by run_block on the parsed block *)
+  Lemma run_bytes_front_end bs :
+    match parse_bytes gbk_runes classify bs, run_bytes fx fclose gbk_runes classify bs with
+    | Ok (PR b _ _), Ok m => exists elses, m = run_block fx fclose elses b
+    | Ok PRTooMany, Ok m => m = []
+    | Fault k, Fault k' => k = k'
+    | OutOfFuel, OutOfFuel => True
+    | _, _ => False
+    end.
+  Proof.
+    unfold run_bytes, parse_bytes.
+    destruct (lex_all gbk_runes bs) as [ts| |]; cbn [rbind]; auto.
+    destruct (parse_tokens classify (fuel_of_tokens (parser_view ts)) (parser_view ts)) as [[b le pe|]| |];
+      cbn [rbind]; eauto.
   Qed.
 End Check.
